@@ -114,7 +114,7 @@ class Ctx:
                 self.exhaustive = False
         cov = {
             'evaluations': self.evaluations,
-            'distinct_nontrivial': len(self.nontrivial),
+            'distinct_nontrivial': len(self.nontrivial) + getattr(self, 'bulk_nt', 0),
             'rule': self.rule,
             'samples': self.samples[:40],
             'exhaustive': bool(self.exhaustive),
@@ -132,7 +132,7 @@ class Ctx:
         json.dump(ev, open(tmp, 'w'), indent=1, default=str)
         os.replace(tmp, p)
         print('%s %s: evaluations=%d distinct_nontrivial=%d exhaustive=%s violations=%d known=%d wall=%.1fs' % (
-            self.pid, self.tier, self.evaluations, len(self.nontrivial), self.exhaustive,
+            self.pid, self.tier, self.evaluations, len(self.nontrivial) + getattr(self, 'bulk_nt', 0), self.exhaustive,
             len(self.violations), len(self.known_hit), wall))
         for name, f in self.families.items():
             print('  family %-28s evals=%-8d nontrivial=%-7d complete=%s outcomes=%s' % (
